@@ -286,6 +286,14 @@ def run_c12(ctx: Ctx):
             b = key.body
             first = b.elts[0] if isinstance(b, ast.Tuple) and b.elts else b
             sorted_ok = norm(first) == f"{a}.start"
+    src_ok = False
+    if len(d) == 1 and isinstance(d[0].value, ast.Call) and d[0].value.args:
+        a0 = d[0].value.args[0]
+        src_ok = isinstance(a0, ast.Call) and isinstance(a0.func, ast.Attribute) and a0.func.attr == "extract_tokens" and [norm(x) for x in a0.args] == [TEXT] \
+            and not any(TEXT in assigned_names(x) for x in stmts_local(f.body))
+    ctx.ob("C12-SRC", f"{q}/{TOKS}:extracted-from-the-text-itself", src_ok,
+           f"token offsets and token text refer to the string passed to extract_tokens; gaps are sliced from `{TEXT}`: both must be the same, unmodified string "
+           f"(`{norm(d[0].value.args[0])[:70] if d and isinstance(d[0].value, ast.Call) and d[0].value.args else '?'}`)", node=d[0] if d else f, mod=m)
     ctx.ob("C12-P4", f"{q}/{TOKS}:sorted-by-start", sorted_ok,
            "candidate tokens are processed in order of increasing start (sorted(.., key=lambda m: (m.start, ...)))", node=d[0] if d else f, mod=m)
     # loop body paths
